@@ -44,13 +44,20 @@ def gen_cases(c, rng, shard):
         return
     for a in harness.walking_cases(c, rng, small=False):
         yield "walk", a
-    for a in harness.flag_cases(c, rng):
+    for i, a in enumerate(harness.flag_cases(c, rng)):
         yield "flags", a
+        if i % 3 == 0:
+            yield "typed", harness.typed_variant(c, a)
+    for a in harness.small_domain_cases(c, rng):
+        yield "small_domain", a
     for seq in harness.hash_collision_cases(c, rng):
         for a in seq:
             yield "congruent", a
-    for _ in range(shard["nrand"]):
-        yield "rand", harness.random_args(c, rng)
+    for i in range(shard["nrand"]):
+        a = harness.random_args(c, rng)
+        yield "rand", a
+        if i % 10 == 0:
+            yield "typed", harness.typed_variant(c, a)
     if c.xfer in ("alloc", "read", "write", "allocarg"):
         for a in harness.huge_cases(c, rng):
             yield "huge", a
@@ -111,6 +118,26 @@ def run_one(ctx, c, setname, kind, a, do_facade, transports):
         full["_outlen"] = len(cmd.dataout)
     observe(ctx, c, setname, "ctor", full, cmd.cdb, c.op)
     ctx.count("cdbs_checked")
+    # other public ways to the same bytes: decode + encode again (how a caller patches one field of an existing command), and the
+    # command after its debug print helper ran
+    if kind != "huge*":
+        try:
+            again = type(cmd).marshall_cdb(type(cmd).unmarshall_cdb(cmd.cdb))
+            observe(ctx, c, setname, "reencoded", full, again, c.op)
+            ctx.count("reencoded_cdbs_checked")
+        except Exception as e:  # noqa: BLE001
+            ctx.fail("C01:%s.reencode_raises.%s" % (c.name, type(e).__name__), "marshall_cdb(unmarshall_cdb(cdb)) raised %s" % e, {"cmd": c.name, "args": a}, exc=e)
+        if hasattr(cmd, "print_cdb") and ctx.evaluations % 5 == 0:
+            import contextlib
+            import io
+
+            try:
+                with contextlib.redirect_stdout(io.StringIO()):
+                    cmd.print_cdb()
+                observe(ctx, c, setname, "after_print_cdb", full, cmd.cdb, c.op)
+                ctx.count("cdbs_checked_after_print_cdb")
+            except Exception as e:  # noqa: BLE001
+                ctx.fail("C01:%s.print_cdb_raises.%s" % (c.name, type(e).__name__), "cmd.print_cdb() raised %s" % e, {"cmd": c.name, "args": a}, exc=e)
     # the CDB rebuilt on the same object from the same field values (a polling loop re-issuing the command)
     if CAPTURED and kind != "huge*":
         try:
